@@ -3,12 +3,12 @@ LEAN_MODULES = ["Sif.Props.C05"]
 EXTRACT = [{"group": "bridge", "passes": ["bridgefacts"]}]
 FAMILIES = [
     {"name": "bridge_oracle", "family": "bridge_oracle", "group": "bridge", "driver": "drv_bridge",
-     "n_quick": 300, "n_thorough": 1500, "seeds_thorough": 3},
+     "n_quick": 200, "n_thorough": 1500, "seeds_thorough": 3},
 ]
 RULE = ("bridge_oracle: L1 histories on the real oracle/ethbridge keepers of a full SifchainApp with a real staking keeper: 1-8 validators "
         "with chosen powers (ties, zero power, boundary vectors 10p-7t in {-1,0,1,..}, totals up to 2^48), bonded flags, whitelists with "
         "duplicates / non-validators, administrative transactions of two messages on one cache context written only if both succeed (whitelist edit + failing or succeeding second message) followed by a claim of the validator concerned, block steps that run the real oracle / ethbridge EndBlock and BeginBlock hooks and jump 1, 10, 100800, 100801 or 10^6 blocks ahead (late and replayed claims after them), restarts from the exported genesis, validator / signer / receiver address fields in the canonical or the all-upper-case bech32 spelling (same bytes), admin add/remove and staking changes interleaved with claims, 1-3 events with 1-3 contents each, late and "
-        "duplicate claims; every history executed 4x in-process (Go map order re-rolled). Directed: the F2 shape, de-whitelisted claimants on both "
+        "duplicate claims; every history executed 8x in-process, the raw bytes of the oracle and ethbridge stores digested after each execution and compared with the first (storeBytesSame) (Go map order re-rolled). Directed: the F2 shape, de-whitelisted claimants on both "
         "sides, threshold boundaries, zero total power, the same validator claiming twice under two spellings with 40 % power. After every message the canonical state (whitelist, prophecies with both claim maps, peggy "
         "list, pause, fee receiver, blacklist, all balances, supply) is compared with the Lean model; chk lines evaluate Spec.C05.prophecyWF / "
         "thresholdMet (against the STORED whitelist) / acceptedClaimantOK / viewIsStore (keeper view of the whitelist = raw store) / finalStable / finalKept (a prophecy once seen finalised is what the keeper still returns after block jumps, restarts and late claims) on the implementation's dumps. non-trivial = distinct accepted message, or a chk on a non-pending prophecy")
